@@ -586,6 +586,17 @@ Definition tight_rows (code : Z) (f : pixfmt) (flt : tfilter) (cut : bool) (bypp
       write_rowsM code rx y0 rows ;;; ret last
   end.
 
+(* FilterGradient24 / FilterGradientBPP store the first pixel of every row unconditionally ("dst[y*client->width] = ...")
+   even when the rectangle is 0 pixels wide: pixel index (ry + j) * width + rx for j < rh, computed from whatever the row
+   buffers hold.  For rx = width that is column 0 of the NEXT row, and one pixel past the framebuffer for the last row
+   (finding C08-F31; fix 10 = notes/fix_C08_11.diff returns early) *)
+Definition write_lin (code x y : Z) : M unit :=
+  s <- get_st ;;
+  if c_w s <=? 0 then oobM code else
+  write_rowsM code (x mod c_w s) (y + x / c_w s) [[0]].
+Definition grad_zero_width (code rx ry rh : Z) : M unit :=
+  upd_st set_taint ;;; mapM (fun j => write_lin code rx (ry + j)) (zseq rh) ;;; ret tt.
+
 Definition dec_tight (rx ry rw rh : Z) : M unit :=
   s <- get_st ;;
   let f := c_fmt s in
@@ -631,6 +642,10 @@ Definition dec_tight (rx ry rw rh : Z) : M unit :=
         let prev0 := repeat (0, 0, 0) (Z.to_nat rw) in
         if rh * rowsize <? cTIGHT_MIN_TO_COMPRESS then
           b <- rd_buf 71 cRFB_BUFFER_SIZE (rh * rowsize) ;;
+          (match flt with
+           | TFGradient => if (rw =? 0) && negb (fixed s 10) then grad_zero_width 79 rx ry rh else ret tt
+           | _ => ret tt
+           end) ;;;
           tight_rows 72 f flt cut bypp rx ry rw rowsize (firstn (Z.to_nat rh) (chunks rowsize b)) prev0 ;;; ret tt
         else if nozlib then
           len <- rd_compact ;;
